@@ -28,11 +28,12 @@ func init() {
 	})
 	register(&Property{
 		ID: "C08",
-		Explanation: "Decides field-by-field agreement and ordering in the index code, not equality of lookups over histories: (index-wire-fields) every field of the on-disk blob record (enumerated from the struct blobJSON; an unknown field is a violation) is written by generatePackList from the in-memory entry field of the same meaning and copied by DecodeIndex into the pack.Blob field of the same name; the pack ID written is idx.packs[e.packIndex] and is registered on decode, each blob being stored under the pack index addToPacks returned; Index.store hands blob.ID/Offset/Length/UncompressedLength to the indexMap.add parameter of the same name, into the table of blob.Type; indexMap.add stores every parameter in the entry field of the same name and toPackedBlob reads them back into the result; (narrowing-guards) Index.store narrows Offset, Length and UncompressedLength to 32 bits only behind the <= MaxUint32 edges, addToPacks returns and merge copies entries only behind len(idx.packs) <= MaxUint32; (index-load-order) MasterIndex.Load merges only after ForAllIndexes succeeded, loads only after prepareIncrementalLoad succeeded, returns MergeFinalIndexes' result; for an index that was not loaded before, decoded without error and accepted by the caller, the callback cannot return without mi.Insert(idx); prepareIncrementalLoad clears the in-memory index when a previously loaded index file has disappeared; (index-locks, master-index-locks: C16) the index structures are only touched under their mutexes; (merge-keeps-distinct-entries) Index.merge leaves an entry out as a duplicate only after comparing complete pack.PackedBlob values (or pack, offset, length and uncompressed length field by field) — added after a seeded change that ignored the offset and so dropped a blob's second location inside one pack. Not decided: that lookups after any history of added/removed index files equal a fresh load, and JSON encoding of the values.",
+		Explanation: "Decides field-by-field agreement and ordering in the index code, not equality of lookups over histories: (index-wire-fields) every field of the on-disk blob record (enumerated from the struct blobJSON; an unknown field is a violation) is written by generatePackList from the in-memory entry field of the same meaning and copied by DecodeIndex into the pack.Blob field of the same name; the pack ID written is idx.packs[e.packIndex] and is registered on decode, each blob being stored under the pack index addToPacks returned; Index.store hands blob.ID/Offset/Length/UncompressedLength to the indexMap.add parameter of the same name, into the table of blob.Type; indexMap.add stores every parameter in the entry field of the same name and toPackedBlob reads them back into the result; (narrowing-guards) Index.store narrows Offset, Length and UncompressedLength to 32 bits only behind the <= MaxUint32 edges, addToPacks returns and merge copies entries only behind len(idx.packs) <= MaxUint32; (index-load-order) MasterIndex.Load merges only after ForAllIndexes succeeded, loads only after prepareIncrementalLoad succeeded, returns MergeFinalIndexes' result; for an index that was not loaded before, decoded without error and accepted by the caller, the callback cannot return without mi.Insert(idx); prepareIncrementalLoad clears the in-memory index when a previously loaded index file has disappeared; (index-locks, master-index-locks: C16) the index structures are only touched under their mutexes; (merge-keeps-distinct-entries) Index.merge leaves an entry out as a duplicate only after comparing complete pack.PackedBlob values (or pack, offset, length and uncompressed length field by field) — added after a seeded change that ignored the offset and so dropped a blob's second location inside one pack. (index-load-errors-propagate) MasterIndex.Load's per-file callback, handed a non-nil error for a file that is not loaded yet, returns a non-nil error unless the error went to the caller's own callback (path-sensitive search with the error assumed non-nil) — a file passed over in silence would leave the index without its entries while Load succeeds (added after a seeded change that tested the error only when a callback was given). Not decided: that lookups after any history of added/removed index files equal a fresh load, and JSON encoding of the values.",
 		Assumptions: commonAssumptions,
 		Technique:   "static analysis: writer/reader field-table agreement enumerated from struct types + CFG edge cuts for range checks and ordering + specialised path evaluation + locksets (go/ssa, go/types)",
 		AllConfigs:  true,
 		Run: func(c *eng.Ctx) {
+			ruleIndexLoadErrorsPropagate(c)
 			ruleIndexWireFields(c)
 			ruleNarrowingGuards(c)
 			ruleIndexLoadOrder(c)
@@ -42,8 +43,10 @@ func init() {
 			ruleMergeKeepsDistinctEntries(c)
 		},
 		Controls: []Control{
+			{Name: "failed-index-file-skipped", File: "internal/repository/index/master_index.go",
+				Old: "		if err != nil {\n			return err\n		}\n		// special case to allow check to ignore index loading errors", New: "		if err != nil && idx != nil {\n			return err\n		}\n		// special case to allow check to ignore index loading errors", Rule: "index-load-errors-propagate"},
 			{Name: "merge-treats-same-id-as-duplicate", File: "internal/repository/index/index.go",
-				Old: "				if *b == *b2 {\n					found = true", New: "				if b.ID == b2.ID && b.Type == b2.Type {\n					found = true", Rule: "merge-keeps-distinct-entries"},
+				Old: "				if *b == *b2 {\n					found = true", New: "				if b.Handle() == b2.Handle() {\n					found = true", Rule: "merge-keeps-distinct-entries"},
 			{Name: "length-and-uncompressed-length-swapped-on-decode", File: "internal/repository/index/index.go",
 				Old: "				Length:             blob.Length,\n				UncompressedLength: blob.UncompressedLength,\n			})\n		}\n	}\n	idx.ids = append(idx.ids, id)", New: "				Length:             blob.UncompressedLength,\n				UncompressedLength: blob.Length,\n			})\n		}\n	}\n	idx.ids = append(idx.ids, id)", Rule: "index-wire-fields"},
 			{Name: "uncompressed-length-not-written", File: "internal/repository/index/index.go",
